@@ -2,7 +2,10 @@
 # usage: tools/try_seed.sh <patch.diff> <Cxx> [tier]   -> prints DETECTED / MISSED
 . /verif/env.sh
 cd /verif
+# evidence files describe runs on /repo itself: keep the one on disk across a patched run
+ev=/verif/evidence/$2.json; bak=$(mktemp /var/tmp/verif-ev-XXXXXX); [ -f $ev ] && cp $ev $bak
 out=$(tools/with_patch.sh "$1" ./run.sh "$2" "${3:-quick}" 2>&1); code=$?
+[ -s $bak ] && cp $bak $ev; rm -f $bak
 n=$(echo "$out" | grep -c "^VIOLATION")
 echo "$out" | grep -E "^VIOLATION|signature:|BROKEN" | head -6
 if [ $code -eq 1 ] && [ $n -gt 0 ]; then echo "RESULT $2 $(basename $(dirname $1)): DETECTED ($n violation lines)"; elif [ $code -eq 2 ]; then echo "RESULT $2: BROKEN (exit 2)"; echo "$out" | tail -15; else echo "RESULT $2 $(basename $(dirname $1)): MISSED (exit $code)"; fi
